@@ -115,7 +115,7 @@ var (
 
 func fixtures() error {
 	fixOnce.Do(func() {
-		corelog.SetDefault(corelog.NewNopLogger())
+		corelog.SetDefault(seamLogger{})
 		ctx := context.Background()
 		st := storage.NewMemoryStorage(ctx)
 		sharedSM = session.NewSessionManager(idgen.NewIDManager(st, ctx), ctx)
@@ -222,8 +222,77 @@ func waitGone(gid int64, timeout time.Duration) bool {
 }
 
 type routeEnt struct {
-	w    *world
-	main bool // the behaviour's driving goroutine: its own calls are never gated
+	w     *world
+	main  bool // the behaviour's driving goroutine: its own calls are never gated
+	clean bool // a clean-up pass of the protector running as a scheduled process: its log lines are a seam
+}
+
+// seamLogger is the process-wide logger: silent, except that the protector's clean-up pass - which has no
+// storage behind it and no yield point inside - reports every expired ban it has removed with one debug line;
+// for a pass that runs as a scheduled process that line is a gate (the pass parks AFTER the delete).
+type seamLogger struct{ corelog.NopLogger }
+
+const expiredBanLine = "BruteForce: IP %s unbanned (expired)"
+
+func (seamLogger) Debugf(format string, args ...interface{}) {
+	if format != expiredBanLine || len(args) == 0 {
+		return
+	}
+	gid := curGid()
+	router.mu.Lock()
+	e := router.byGid[gid]
+	router.mu.Unlock()
+	if e == nil || !e.clean {
+		return
+	}
+	e.w.s.Gate("log.bf.expired", map[string]any{"ip": fmt.Sprint(args[0]), "gid": gid})
+}
+func (l seamLogger) WithField(string, interface{}) corelog.Logger     { return l }
+func (l seamLogger) WithFields(map[string]interface{}) corelog.Logger { return l }
+func (l seamLogger) WithError(error) corelog.Logger                   { return l }
+func (l seamLogger) WithContext(context.Context) corelog.Logger       { return l }
+
+func (w *world) registerClean() {
+	router.mu.Lock()
+	router.byGid[curGid()] = &routeEnt{w: w, clean: true}
+	router.mu.Unlock()
+}
+
+// banLockHeld: is the protector's ban lock held right now (by a pass parked at its log line)? A look-up of
+// an address nobody uses either returns or is seen waiting for the lock.
+func (w *world) banLockHeld() bool {
+	done := make(chan struct{})
+	var gid atomic.Int64
+	go func() {
+		gid.Store(curGid())
+		w.bf.IsBanned("192.0.2.99")
+		close(done)
+	}()
+	deadline := time.Now().Add(2 * time.Second)
+	for time.Now().Before(deadline) {
+		select {
+		case <-done:
+			return false
+		default:
+		}
+		if g := gid.Load(); g != 0 && lockWaiting(g) {
+			select {
+			case <-done:
+				return false
+			default:
+				return true
+			}
+		}
+		time.Sleep(200 * time.Microsecond)
+	}
+	return true
+}
+
+func (w *world) modelIP(real string) string {
+	if real == w.realIP("b") {
+		return "b"
+	}
+	return "a"
 }
 
 var router = struct {
@@ -560,6 +629,9 @@ func drive(env *fw.Env, b fw.Behaviour) *fw.Trace {
 	if err := fixtures(); err != nil {
 		return &fw.Trace{Status: fw.DriverError, Note: err.Error()}
 	}
+	if isListsBeh(b.Data) { // schedules of spec/BruteForceLists.tla: lists.go
+		return driveLists(env, b)
+	}
 	var beh behaviour
 	if err := json.Unmarshal(b.Data, &beh); err != nil {
 		return &fw.Trace{Status: fw.DriverError, Note: err.Error()}
@@ -622,6 +694,7 @@ func drive(env *fw.Env, b fw.Behaviour) *fw.Trace {
 	}
 	cur := map[string]*hsCall{}
 	nClean, cleanName, cleanT0 := 0, "", int64(0) // a clean-up pass running as its own process (CleanScan .. CleanDel)
+	cleanAhead := map[string]bool{}               // addresses whose expired ban the parked pass has removed before the model's CleanDel
 	diverged := ""
 	concN := 0 // > 0: the history has a ConcFirst step; the same step is repeated for many more fresh addresses at the end
 	nCalls := map[string]int{}
@@ -705,20 +778,38 @@ func drive(env *fw.Env, b fw.Behaviour) *fw.Trace {
 			}
 			noteAgree(b.Src, got == st.Adm, fmt.Sprintf("beh %d: flood of %d %s handshakes granted %d, model %d", b.ID, st.N, st.Kind, got, st.Adm))
 		case "CleanScan":
-			// deviation "split clean-up": the pass runs as its own process; if it deletes through UnbanIP
-			// after its scan it parks at bf.unban.enter before the first delete
+			// deviation "split clean-up": the pass runs as its own process. Seams: a pass that deletes through
+			// UnbanIP after its scan parks at bf.unban.enter BEFORE each delete; a pass that deletes inline reports
+			// each removed ban with a debug line and parks there AFTER the delete (seamLogger) - if it holds the ban
+			// lock at that point the whole pass is one critical section (the code as it stands) and is let run to its end
 			c, ok := any(w.bf).(interface{ VerifCleanup() })
 			if !ok {
 				return unreal(fmt.Sprintf("step %d: clean-up export shim absent (hook patch not applied)", i))
 			}
 			nClean++
 			cleanName, cleanT0 = fmt.Sprintf("clean.%d", nClean), w.ms0()
-			state := w.s.Start(cleanName, func() any { w.register(false); c.VerifCleanup(); return true })
+			cleanAhead = map[string]bool{}
+			w.log(fw.Event{"ev": "CleanStart", "what": "bf", "t0": cleanT0, "t1": w.ms1()})
+			state := w.s.Start(cleanName, func() any { w.registerClean(); c.VerifCleanup(); return true })
+			if _, at := w.s.State(cleanName); state == sched.Parked && at.Point == "log.bf.expired" {
+				if w.banLockHeld() {
+					for state == sched.Parked {
+						state, _ = w.s.Step(cleanName)
+					}
+				} else {
+					cleanAhead[w.modelIP(fmt.Sprint(at.Info["ip"]))] = true
+				}
+			}
 			if state == sched.Done {
 				w.log(fw.Event{"ev": "Clean", "what": "bf", "t0": cleanT0, "t1": w.ms1()})
 				cleanName = ""
 			} else if state != sched.Parked {
 				return unreal(fmt.Sprintf("step %d: clean-up pass is %s", i, state))
+			} else {
+				// the pass is parked inside its ban section: its first section - failure records whose window is
+				// empty are dropped, and the lifetime count with them - is over. The judge must know that now, not
+				// when the pass ends (a second Clean event then carries the bracket of the whole pass)
+				w.log(fw.Event{"ev": "Clean", "what": "bf", "part": "records", "t0": cleanT0, "t1": w.ms1()})
 			}
 		case "CleanDel":
 			if cleanName == "" {
@@ -729,7 +820,18 @@ func drive(env *fw.Env, b fw.Behaviour) *fw.Trace {
 				}
 				break
 			}
-			if ns, _ := w.s.Step(cleanName); ns == sched.Done {
+			if cleanAhead[st.IP] {
+				delete(cleanAhead, st.IP) // the pass stands behind this delete already (log-line seam)
+				break
+			}
+			ns, _ := w.s.Step(cleanName)
+			if _, at := w.s.State(cleanName); ns == sched.Parked && at.Point == "log.bf.expired" {
+				if got := w.modelIP(fmt.Sprint(at.Info["ip"])); got != st.IP && diverged == "" {
+					diverged = fmt.Sprintf("step %d: the clean-up pass removed the ban of %s, the model removes %s's now (map iteration order)", i, got, st.IP)
+					cleanAhead[got] = true
+				}
+			}
+			if ns == sched.Done {
 				w.log(fw.Event{"ev": "Clean", "what": "bf", "t0": cleanT0, "t1": w.ms1()})
 				cleanName = ""
 			} else if ns != sched.Parked {
@@ -1248,9 +1350,20 @@ func cloneTrace(t *fw.Trace, id int) *fw.Trace {
 func selfTest(env *fw.Env, acc []*fw.Trace) []*fw.Trace {
 	var out []*fw.Trace
 	next := 1 << 20
-	quota := map[string]int{"ban": 8, "bl": 8, "rate": 6, "gate": 6, "spur": 6}
+	quota := map[string]int{"ban": 8, "bl": 8, "rate": 6, "gate": 6, "spur": 6, "lists": 10}
 	for _, t := range acc {
 		if len(t.Events) == 0 || t.Events[0]["ev"] != "Cfg" {
+			continue
+		}
+		if isListsBeh(t.Beh.Data) {
+			// (6) schedules of the IP manager's clean-up against operator calls: a refusal demanded by a permanent
+			// order that returned before the look-up began (and was not withdrawn, address never whitelisted) is
+			// turned into "allowed"
+			if c := corruptLists(t, next+1); c != nil && quota["lists"] > 0 {
+				next++
+				out = append(out, c)
+				quota["lists"]--
+			}
 			continue
 		}
 		cfg := t.Events[0]
@@ -1389,6 +1502,42 @@ func selfTest(env *fw.Env, acc []*fw.Trace) []*fw.Trace {
 	return out
 }
 
+func corruptLists(t *fw.Trace, id int) *fw.Trace {
+	cfg := t.Events[0]
+	type ord struct {
+		perm bool
+		t1   int64
+	}
+	latest := map[string]map[string]*ord{"a": {}, "b": {}}
+	wl := map[string]bool{}
+	for _, e := range t.Events {
+		if e["ev"] == "Wl" {
+			wl[fmt.Sprint(e["ip"])] = true
+		}
+	}
+	for i, e := range t.Events {
+		ip := fmt.Sprint(e["ip"])
+		switch e["ev"] {
+		case "Blk":
+			latest[ip][fmt.Sprint(e["form"])] = &ord{e["perm"] == true, num(e["t1"])}
+		case "MUnbl":
+			delete(latest[ip], fmt.Sprint(e["form"]))
+		case "Query":
+			if e["bl"] != true || wl[ip] {
+				continue
+			}
+			for _, o := range latest[ip] {
+				if o.perm && o.t1+num(cfg["mS"]) <= num(e["t0"]) {
+					c := cloneTrace(t, id)
+					c.Events[i]["bl"] = false
+					return c
+				}
+			}
+		}
+	}
+	return nil
+}
+
 // ---- wiring ----------------------------------------------------------------------------------------
 const (
 	actsBan  = `{"Bad", "Query", "Tick", "Unban"}`
@@ -1484,122 +1633,209 @@ func genRate(env *fw.Env) fw.TLCJob {
 	return j
 }
 
+// listsJob: one TLC run of spec/BruteForceLists.tla (the IPManager at lock / storage-call granularity).
+// nets = addresses that also have a range entry; emit = {} for a pure model check.
+func listsJob(name, variants, addrs, nets, ops, emit, invs string, maxCalls, maxWait int) fw.TLCJob {
+	return fw.TLCJob{Name: name, Module: "BruteForceLists", Cfg: "BruteForceLists.cfg", Workers: 4, Timeout: 12 * time.Minute, Consts: map[string]string{
+		"ADDRS": addrs, "NETOF": nets, "OPS": "{1, 2}", "INITKINDS": `{"none", "exp", "perm"}`, "OPKINDS": ops, "VARIANTS": variants,
+		"MAXPASS": "1", "MAXCALLS": strconv.Itoa(maxCalls), "MAXEPOCH": "1", "MAXEXP": "2", "MAXWAIT": strconv.Itoa(maxWait),
+		"ACTS": `{"Query", "Reload"}`, "EMIT": emit, "INVS": invs}}
+}
+
+const (
+	listsOps   = `{"BlkP", "Blk", "Wl", "UnWl", "MUnbl"}`
+	listsInvs  = "BlacklistHolds MemKeeps StoreKeeps NoDeviation"
+	listsDevs  = `{"split", "norecheck", "stunlocked", "norecheck+stunlocked"}` // a correct per-key locking and the three deviations
+	listsDevs3 = `{"norecheck", "stunlocked", "norecheck+stunlocked"}`
+	listsAsIs  = `{"locked"}`
+	listsBoth  = `{"locked", "split"}`
+	listsNoNet = "{}"
+)
+
+// deviation "split clean-up" of the protector: every delete of a scanned address, every recorded deviation; two
+// addresses (the log-line seam lets the driver in only after the pass's first delete)
+func genCleanSplit(env *fw.Env) fw.TLCJob {
+	mc := 2
+	if env.Tier == "thorough" {
+		mc = 3
+	}
+	j := genJob("legacy:clean-split", `{"h1"}`, actsSplt, "TRUE", fixAll, `{"CleanDel", "dev"}`, tm{2, 3, 2, 2, mc})
+	j.Consts["IPS"] = `{"a", "b"}`
+	return j
+}
+
+func genClean(env *fw.Env) fw.TLCJob {
+	if env.Tier == "thorough" {
+		return listsJob("gen:clean", listsAsIs, `{"a", "b"}`, `{"a"}`, listsOps, `{"cend", "ret"}`, listsInvs, 2, 1)
+	}
+	return listsJob("gen:clean", listsAsIs, `{"a"}`, `{"a"}`, listsOps, `{"cend", "ret"}`, listsInvs, 2, 1)
+}
+
+// thorough: temporary entries that are live at first and run out while calls and (two) passes are under way
+func genCleanEpochs() fw.TLCJob {
+	j := listsJob("gen:clean:epochs", listsAsIs, `{"a", "b"}`, listsNoNet, `{"BlkP", "Blk", "MUnbl"}`, `{"cend", "ret"}`, listsInvs, 2, 1)
+	j.Consts["INITKINDS"], j.Consts["MAXEPOCH"], j.Consts["MAXPASS"], j.Consts["ACTS"] = `{"none", "exp", "live", "perm"}`, "2", "2", `{"Query", "Reload", "Expire"}`
+	return j
+}
+
+func genCleanVariants(env *fw.Env) fw.TLCJob {
+	if env.Tier == "thorough" {
+		j := listsJob("legacy:clean-variants", listsDevs, `{"a", "b"}`, `{"a"}`, `{"BlkP", "Blk", "MUnbl"}`, `{"dev", "cend"}`, "", 2, 1)
+		j.Consts["MAXEXP"] = "3" // three expired entries: a call that waits for the per-key lock gets it before the third
+		return j
+	}
+	return listsJob("legacy:clean-variants", listsDevs3, `{"a", "b"}`, listsNoNet, `{"BlkP", "Blk", "Wl", "MUnbl"}`, `{"dev", "cend"}`, "", 2, 1)
+}
+
+// only (developer knob C18_ONLY=<substring>): run just the TLC jobs whose name contains the substring
+func only(jobs []fw.TLCJob) []fw.TLCJob {
+	f := os.Getenv("C18_ONLY")
+	if f == "" {
+		return jobs
+	}
+	var out []fw.TLCJob
+	for _, j := range jobs {
+		if strings.Contains(j.Name, f) {
+			out = append(out, j)
+		}
+	}
+	return out
+}
+
 func main() {
 	const asIs = "BanHoldsOrKnown BlacklistHoldsOrKnown"
 	const strict = "BanHolds BlacklistHolds NoDeviation"
 	one, two := `{"h1"}`, `{"h1", "h2"}`
 	race := `{"Bad", "Query", "Tick", "Unban", "MUnban"}`
+	modelJobs := func(env *fw.Env) []fw.TLCJob {
+		if env.Tier == "quick" {
+			lists := `{"Blk", "BlkP", "MUnbl", "Wl", "Query", "Tick", "Unbl", "Reload", "CleanL"}`
+			rate := mcJob("mc:rate", one, `{"Anon", "Anon2", "Zero", "Tick", "Idle", "Flood", "FloodHs", "ConcFirst"}`, "TRUE", fixAll, strict, tm{2, 3, 2, 2, 8})
+			rate.Consts["MAXADM"] = "8"
+			recycle := mcJob("mc:recycle", one, `{"Bad", "Good", "Query", "Tick", "Clean"}`, "TRUE", fixAll, strict, tm{2, 3, 2, 2, 2})
+			recycle.Consts["IPS"] = `{"a", "b"}` // two addresses: released failure records belong to nobody
+			// the quick tier merges sub-systems whose state graphs are small into one TLC run each (a JVM start
+			// costs more than these graphs); the thorough tier checks them separately and larger
+			return []fw.TLCJob{
+				rate, recycle,
+				mcJob("mc:race:as-is", two, race, "FALSE", "{}", asIs, tm{2, 3, 2, 2, 4}),
+				// repaired design, plus the deviation "split clean-up" (scan, then delete): with every repair
+				// in place the only excuse BanHoldsOrKnown can still use is cleanLive
+				mcJob("mc:race:repaired+clean-split", two, `{"Bad", "Query", "Tick", "Unban", "MUnban", "CleanScan", "CleanDel"}`, "FALSE", fixAll, "BanHoldsOrKnown BlacklistHolds", tm{2, 3, 2, 2, 4}),
+				mcJob("mc:seq:as-is", one, `{"Bad", "Good", "Query", "Tick", "Unban", "CleanF", "CleanB", "Clean", "MUnban"}`, "FALSE", "{}", asIs, tm{2, 3, 2, 2, 5}),
+				mcJob("mc:lists:as-is", one, lists, "TRUE", "{}", asIs, tm{2, 3, 2, 2, 4}),
+				mcJob("mc:lists:repaired+fault", one, `{"Blk", "BlkP", "BlkF", "MUnbl", "Wl", "Query", "Tick", "Unbl", "Reload", "CleanL"}`, "TRUE", fixAll, strict, tm{2, 3, 2, 2, 3}),
+			}
+		}
+		full := `{"Bad", "Good", "Query", "Tick", "Unban", "CleanF", "CleanB", "MUnban"}`
+		lists := `{"Blk", "BlkP", "BlkO", "MUnbl", "Wl", "WlO", "UnWl", "Query", "Tick", "Unbl", "CleanL", "Reload"}`
+		listsHs := `{"Blk", "BlkP", "MUnbl", "Wl", "Query", "Tick", "Unbl", "Reload", "Anon", "Bad"}` // lists in front of the other gates
+		rate := mcJob("mc:rate", one, `{"Anon", "Anon2", "Zero", "Tick", "Idle", "Flood", "FloodHs", "ConcFirst"}`, "TRUE", fixAll, strict, tm{2, 3, 2, 2, 9})
+		rate.Consts["MAXADM"] = "10"
+		l3a := mcJob("mc:lists3:as-is", one, `{"Blk", "BlkP", "MUnbl", "Wl", "Query", "Tick", "Unbl", "Reload", "CleanL"}`, "TRUE", "{}", asIs, tm{2, 3, 2, 2, 4})
+		l3r := mcJob("mc:lists3:repaired", one, `{"Blk", "BlkP", "MUnbl", "Wl", "Query", "Tick", "Unbl", "Reload", "CleanL"}`, "TRUE", fixAll, strict, tm{2, 3, 2, 2, 4})
+		l3a.Consts["BLFORMS"], l3r.Consts["BLFORMS"] = `{"ip", "net", "net2"}`, `{"ip", "net", "net2"}`
+		// (clock <= 2: with clock <= 3 this graph has > 1.5e7 states and does not finish inside the tier's budget)
+		recycle := mcJob("mc:recycle", two, `{"Bad", "Good", "Query", "Tick", "Clean", "Unban"}`, "FALSE", fixAll, strict, tm{2, 3, 2, 2, 2})
+		recycle.Consts["IPS"] = `{"a", "b"}`
+		return []fw.TLCJob{
+			rate, l3a, l3r, recycle,
+			mcJob("mc:lists:fault", one, `{"Blk", "BlkP", "BlkF", "MUnbl", "Wl", "UnWl", "Query", "Tick", "Unbl", "CleanL"}`, "TRUE", fixAll, strict, tm{2, 3, 2, 2, 4}),
+			mcJob("mc:clean-split", two, `{"Bad", "Query", "Tick", "CleanScan", "CleanDel", "MUnban"}`, "FALSE", fixAll, "BanHoldsOrKnown BlacklistHolds", tm{2, 3, 2, 2, 4}),
+			mcJob("mc:lists:head", one, lists, "TRUE", fixHead, "BanHolds BlacklistHoldsOrKnown", tm{2, 3, 2, 2, 5}),
+			mcJob("mc:lists+hs:as-is", one, listsHs, "TRUE", "{}", asIs, tm{2, 3, 2, 2, 3}),
+			mcJob("mc:lists+hs:repaired", one, listsHs, "TRUE", fixAll, strict, tm{2, 3, 2, 2, 3}),
+			mcJob("mc:race-full:as-is", two, full, "FALSE", "{}", asIs, tm{2, 3, 2, 2, 4}),
+			mcJob("mc:race-full:repaired", two, full, "FALSE", fixAll, strict, tm{2, 3, 2, 2, 4}),
+			mcJob("mc:race-ban3:as-is", two, race, "FALSE", "{}", asIs, tm{2, 3, 2, 3, 6}),
+			mcJob("mc:race-ban3:repaired", two, race, "FALSE", fixAll, strict, tm{2, 3, 2, 3, 6}),
+			mcJob("mc:race-thr3:as-is", two, race, "FALSE", "{}", asIs, tm{3, 4, 3, 2, 5}),
+			mcJob("mc:race-thr3:repaired", two, race, "FALSE", fixAll, strict, tm{3, 4, 3, 2, 5}),
+			mcJob("mc:lists:as-is", one, lists, "TRUE", "{}", asIs, tm{2, 3, 2, 2, 5}),
+			mcJob("mc:lists:repaired", one, lists, "TRUE", fixAll, strict, tm{2, 3, 2, 2, 5}),
+			// the IPManager at lock / storage-call granularity: the clean-up as it stands and a correct per-key locking
+			// (the quick tier checks the invariants of the clean-up as it stands in its generation job gen:clean)
+			listsJob("mc:clean:as-is+split", listsBoth, `{"a", "b"}`, `{"a"}`, listsOps, "{}", listsInvs, 2, 2),
+		}
+	}
+	genJobs := func(env *fw.Env) []fw.TLCJob {
+		mc := 4
+		if env.Tier == "thorough" {
+			mc = 5
+		}
+		jobs := []fw.TLCJob{
+			// every placement of the asynchronous unban in the graph of two racing handshakes, and every
+			// step at which the as-is model records a deviation / a violation (TLC's counterexamples)
+			genJob("gen:ban:as-is", two, actsBan, "FALSE", "{}", `{"Unban", "dev"}`, tm{2, 3, 2, 2, mc}),
+			genJob("gen:ban:repaired", two, actsBan, "FALSE", fixAll, `{"Unban", "Ban"}`, tm{2, 3, 2, 2, mc}),
+			// sequential histories over the whole protector alphabet: one behaviour per transition
+			genJob("gen:seq", one, actsSeq, "TRUE", "{}", allSteps, tm{2, 3, 2, 2, mc}),
+			genJob("gen:lists:as-is", one, actsBl, "TRUE", "{}", allStDev, tm{2, 3, 2, 2, 3}),
+			// a restart from every combination of exact / range black- and whitelist entries (then the probe)
+			genJob("gen:reload", one, `{"Blk", "BlkP", "BlkO", "MUnbl", "Wl", "WlO", "UnWl", "Query", "Tick", "Reload"}`, "TRUE", fixAll, `{"Reload"}`, tm{2, 3, 2, 2, reloadClock(env)}),
+			genJob("gen:gate", one, actsGate, "TRUE", "{}", `{"Hs", "Cred", "Ban", "Query"}`, tm{2, 3, 2, 2, 2}),
+			// rate-limiter histories: take(s), idle for a whole refill period, flood - one per transition
+			genRate(env),
+			// ... and the same through HandleHandshake, over every request shape that is a registration
+			genRateHs(env),
+			// two overlapping blacklisted ranges with independent lifetimes: every query made while an
+			// expired and a live entry coexist (the driver asks each such state many times)
+			genRanges(env),
+			// deviation "split clean-up": every delete of a scanned address, every recorded deviation
+			genCleanSplit(env),
+			// several addresses fail and succeed (their failure records are released), then another address
+			// fails: every query of an address that would be over PermAt had it inherited the released counts
+			genRecycle(env),
+			// blacklist orders given while the storage write fails, over every state of the two entry forms
+			genFault(env),
+			// concurrent first AllowIP calls of an address without a bucket (repeated by the driver for many addresses)
+			genJob("gen:conc-first", one, `{"Anon", "Tick", "ConcFirst", "Flood"}`, "TRUE", fixAll, `{"ConcFirst"}`, tm{2, 3, 2, 2, 4}),
+			// the clean-up pass of the IP manager against operator calls, storage call by storage call: every end of a
+			// pass and every return of a call during a pass (all invariants checked; quick: one address with an exact
+			// and a range entry, thorough: two addresses)
+			genClean(env),
+			// the same under the clean-up variants that shorten the critical section: every step at which a deviation
+			// (cleanupNoRecheck, cleanupStorageUnlocked) or a violation is recorded, every end of a pass
+			genCleanVariants(env),
+		}
+		if env.Tier == "thorough" {
+			jobs = append(jobs,
+				genJob("gen:lists:repaired", one, actsBl, "TRUE", fixAll, `{"Unbl", "Query"}`, tm{2, 3, 2, 2, 3}),
+				genJob("gen:seq:ban3", one, actsSeq, "TRUE", "{}", allSteps, tm{2, 4, 2, 3, 6}),
+				genJob("gen:seq:thr3", one, actsSeq, "TRUE", "{}", allSteps, tm{3, 4, 3, 2, 5}),
+				genJob("gen:ban3:as-is", one, actsBan, "FALSE", "{}", `{"Unban", "dev"}`, tm{2, 3, 2, 3, 6}),
+				genJob("gen:thr3:as-is", two, actsBan, "FALSE", "{}", `{"dev"}`, tm{3, 4, 3, 2, 5}),
+				genJob("legacy:clean-split:1", one, actsSplt, "TRUE", fixAll, `{"CleanDel", "dev"}`, tm{2, 3, 2, 2, 4}),
+				genCleanEpochs())
+		}
+		num := "num=40"
+		if env.Tier == "thorough" {
+			num = "num=400"
+		}
+		if v := os.Getenv("C18_SIM"); v != "" { // developer knob: more simulated histories in the quick tier
+			num = "num=" + v
+		}
+		for i, fixed := range []string{"{}", fixAll} {
+			if i == 0 && env.Tier == "quick" {
+				continue // histories of the code before the repairs: thorough tier only
+			}
+			j := genJob(fmt.Sprintf("sim:%d", i), two, actsAll, "FALSE", fixed, `{"end"}`, tm{2, 3, 2, 2, 6})
+			j.Consts["MAXHIST"] = "28"
+			j.Consts["VIEW"] = ""
+			j.Simulate, j.Depth, j.Seed, j.Workers = num, 30, env.Seed+int64(i), 1
+			jobs = append(jobs, j)
+		}
+		return jobs
+	}
 	fw.Main(&fw.Property{
 		ID:        "C18",
 		DesignRef: "DESIGN.md §5 C18",
-		ModelJobs: func(env *fw.Env) []fw.TLCJob {
-			if env.Tier == "quick" {
-				lists := `{"Blk", "BlkP", "MUnbl", "Wl", "Query", "Tick", "Unbl", "Reload", "CleanL"}`
-				rate := mcJob("mc:rate", one, `{"Anon", "Anon2", "Zero", "Tick", "Idle", "Flood", "FloodHs", "ConcFirst"}`, "TRUE", fixAll, strict, tm{2, 3, 2, 2, 8})
-				rate.Consts["MAXADM"] = "8"
-				recycle := mcJob("mc:recycle", one, `{"Bad", "Good", "Query", "Tick", "Clean"}`, "TRUE", fixAll, strict, tm{2, 3, 2, 2, 2})
-				recycle.Consts["IPS"] = `{"a", "b"}` // two addresses: released failure records belong to nobody
-				// the quick tier merges sub-systems whose state graphs are small into one TLC run each (a JVM start
-				// costs more than these graphs); the thorough tier checks them separately and larger
-				return []fw.TLCJob{
-					rate, recycle,
-					mcJob("mc:race:as-is", two, race, "FALSE", "{}", asIs, tm{2, 3, 2, 2, 4}),
-					// repaired design, plus the deviation "split clean-up" (scan, then delete): with every repair
-					// in place the only excuse BanHoldsOrKnown can still use is cleanLive
-					mcJob("mc:race:repaired+clean-split", two, `{"Bad", "Query", "Tick", "Unban", "MUnban", "CleanScan", "CleanDel"}`, "FALSE", fixAll, "BanHoldsOrKnown BlacklistHolds", tm{2, 3, 2, 2, 4}),
-					mcJob("mc:seq:as-is", one, `{"Bad", "Good", "Query", "Tick", "Unban", "CleanF", "CleanB", "Clean", "MUnban"}`, "FALSE", "{}", asIs, tm{2, 3, 2, 2, 5}),
-					mcJob("mc:lists:as-is", one, lists, "TRUE", "{}", asIs, tm{2, 3, 2, 2, 4}),
-					mcJob("mc:lists:repaired+fault", one, `{"Blk", "BlkP", "BlkF", "MUnbl", "Wl", "Query", "Tick", "Unbl", "Reload", "CleanL"}`, "TRUE", fixAll, strict, tm{2, 3, 2, 2, 3}),
-				}
-			}
-			full := `{"Bad", "Good", "Query", "Tick", "Unban", "CleanF", "CleanB", "MUnban"}`
-			lists := `{"Blk", "BlkP", "BlkO", "MUnbl", "Wl", "WlO", "UnWl", "Query", "Tick", "Unbl", "CleanL", "Reload"}`
-			listsHs := `{"Blk", "BlkP", "MUnbl", "Wl", "Query", "Tick", "Unbl", "Reload", "Anon", "Bad"}` // lists in front of the other gates
-			rate := mcJob("mc:rate", one, `{"Anon", "Anon2", "Zero", "Tick", "Idle", "Flood", "FloodHs", "ConcFirst"}`, "TRUE", fixAll, strict, tm{2, 3, 2, 2, 9})
-			rate.Consts["MAXADM"] = "10"
-			l3a := mcJob("mc:lists3:as-is", one, `{"Blk", "BlkP", "MUnbl", "Wl", "Query", "Tick", "Unbl", "Reload", "CleanL"}`, "TRUE", "{}", asIs, tm{2, 3, 2, 2, 4})
-			l3r := mcJob("mc:lists3:repaired", one, `{"Blk", "BlkP", "MUnbl", "Wl", "Query", "Tick", "Unbl", "Reload", "CleanL"}`, "TRUE", fixAll, strict, tm{2, 3, 2, 2, 4})
-			l3a.Consts["BLFORMS"], l3r.Consts["BLFORMS"] = `{"ip", "net", "net2"}`, `{"ip", "net", "net2"}`
-			recycle := mcJob("mc:recycle", two, `{"Bad", "Good", "Query", "Tick", "Clean", "Unban"}`, "FALSE", fixAll, strict, tm{2, 3, 2, 2, 3})
-			recycle.Consts["IPS"] = `{"a", "b"}`
-			return []fw.TLCJob{
-				rate, l3a, l3r, recycle,
-				mcJob("mc:lists:fault", one, `{"Blk", "BlkP", "BlkF", "MUnbl", "Wl", "UnWl", "Query", "Tick", "Unbl", "CleanL"}`, "TRUE", fixAll, strict, tm{2, 3, 2, 2, 4}),
-				mcJob("mc:clean-split", two, `{"Bad", "Query", "Tick", "CleanScan", "CleanDel", "MUnban"}`, "FALSE", fixAll, "BanHoldsOrKnown BlacklistHolds", tm{2, 3, 2, 2, 4}),
-				mcJob("mc:lists:head", one, lists, "TRUE", fixHead, "BanHolds BlacklistHoldsOrKnown", tm{2, 3, 2, 2, 5}),
-				mcJob("mc:lists+hs:as-is", one, listsHs, "TRUE", "{}", asIs, tm{2, 3, 2, 2, 3}),
-				mcJob("mc:lists+hs:repaired", one, listsHs, "TRUE", fixAll, strict, tm{2, 3, 2, 2, 3}),
-				mcJob("mc:race-full:as-is", two, full, "FALSE", "{}", asIs, tm{2, 3, 2, 2, 4}),
-				mcJob("mc:race-full:repaired", two, full, "FALSE", fixAll, strict, tm{2, 3, 2, 2, 4}),
-				mcJob("mc:race-ban3:as-is", two, race, "FALSE", "{}", asIs, tm{2, 3, 2, 3, 6}),
-				mcJob("mc:race-ban3:repaired", two, race, "FALSE", fixAll, strict, tm{2, 3, 2, 3, 6}),
-				mcJob("mc:race-thr3:as-is", two, race, "FALSE", "{}", asIs, tm{3, 4, 3, 2, 5}),
-				mcJob("mc:race-thr3:repaired", two, race, "FALSE", fixAll, strict, tm{3, 4, 3, 2, 5}),
-				mcJob("mc:lists:as-is", one, lists, "TRUE", "{}", asIs, tm{2, 3, 2, 2, 5}),
-				mcJob("mc:lists:repaired", one, lists, "TRUE", fixAll, strict, tm{2, 3, 2, 2, 5}),
-			}
-		},
-		GenJobs: func(env *fw.Env) []fw.TLCJob {
-			mc := 4
-			if env.Tier == "thorough" {
-				mc = 5
-			}
-			jobs := []fw.TLCJob{
-				// every placement of the asynchronous unban in the graph of two racing handshakes, and every
-				// step at which the as-is model records a deviation / a violation (TLC's counterexamples)
-				genJob("gen:ban:as-is", two, actsBan, "FALSE", "{}", `{"Unban", "dev"}`, tm{2, 3, 2, 2, mc}),
-				genJob("gen:ban:repaired", two, actsBan, "FALSE", fixAll, `{"Unban", "Ban"}`, tm{2, 3, 2, 2, mc}),
-				// sequential histories over the whole protector alphabet: one behaviour per transition
-				genJob("gen:seq", one, actsSeq, "TRUE", "{}", allSteps, tm{2, 3, 2, 2, mc}),
-				genJob("gen:lists:as-is", one, actsBl, "TRUE", "{}", allStDev, tm{2, 3, 2, 2, 3}),
-				// a restart from every combination of exact / range black- and whitelist entries (then the probe)
-				genJob("gen:reload", one, `{"Blk", "BlkP", "BlkO", "MUnbl", "Wl", "WlO", "UnWl", "Query", "Tick", "Reload"}`, "TRUE", fixAll, `{"Reload"}`, tm{2, 3, 2, 2, reloadClock(env)}),
-				genJob("gen:gate", one, actsGate, "TRUE", "{}", `{"Hs", "Cred", "Ban", "Query"}`, tm{2, 3, 2, 2, 2}),
-				// rate-limiter histories: take(s), idle for a whole refill period, flood - one per transition
-				genRate(env),
-				// ... and the same through HandleHandshake, over every request shape that is a registration
-				genRateHs(env),
-				// two overlapping blacklisted ranges with independent lifetimes: every query made while an
-				// expired and a live entry coexist (the driver asks each such state many times)
-				genRanges(env),
-				// deviation "split clean-up": every delete of a scanned address, every recorded deviation
-				genJob("legacy:clean-split", one, actsSplt, "TRUE", fixAll, `{"CleanDel", "dev"}`, tm{2, 3, 2, 2, 4}),
-				// several addresses fail and succeed (their failure records are released), then another address
-				// fails: every query of an address that would be over PermAt had it inherited the released counts
-				genRecycle(env),
-				// blacklist orders given while the storage write fails, over every state of the two entry forms
-				genFault(env),
-				// concurrent first AllowIP calls of an address without a bucket (repeated by the driver for many addresses)
-				genJob("gen:conc-first", one, `{"Anon", "Tick", "ConcFirst", "Flood"}`, "TRUE", fixAll, `{"ConcFirst"}`, tm{2, 3, 2, 2, 4}),
-			}
-			if env.Tier == "thorough" {
-				jobs = append(jobs,
-					genJob("gen:lists:repaired", one, actsBl, "TRUE", fixAll, `{"Unbl", "Query"}`, tm{2, 3, 2, 2, 3}),
-					genJob("gen:seq:ban3", one, actsSeq, "TRUE", "{}", allSteps, tm{2, 4, 2, 3, 6}),
-					genJob("gen:seq:thr3", one, actsSeq, "TRUE", "{}", allSteps, tm{3, 4, 3, 2, 5}),
-					genJob("gen:ban3:as-is", one, actsBan, "FALSE", "{}", `{"Unban", "dev"}`, tm{2, 3, 2, 3, 6}),
-					genJob("gen:thr3:as-is", two, actsBan, "FALSE", "{}", `{"dev"}`, tm{3, 4, 3, 2, 5}))
-			}
-			num := "num=40"
-			if env.Tier == "thorough" {
-				num = "num=400"
-			}
-			if v := os.Getenv("C18_SIM"); v != "" { // developer knob: more simulated histories in the quick tier
-				num = "num=" + v
-			}
-			for i, fixed := range []string{"{}", fixAll} {
-				if i == 0 && env.Tier == "quick" {
-					continue // histories of the code before the repairs: thorough tier only
-				}
-				j := genJob(fmt.Sprintf("sim:%d", i), two, actsAll, "FALSE", fixed, `{"end"}`, tm{2, 3, 2, 2, 6})
-				j.Consts["MAXHIST"] = "28"
-				j.Consts["VIEW"] = ""
-				j.Simulate, j.Depth, j.Seed, j.Workers = num, 30, env.Seed+int64(i), 1
-				jobs = append(jobs, j)
-			}
-			return jobs
-		},
+		ModelJobs: func(env *fw.Env) []fw.TLCJob { return only(modelJobs(env)) },
+		GenJobs:   func(env *fw.Env) []fw.TLCJob { return only(genJobs(env)) },
 		Expand: func(env *fw.Env, src string, raw json.RawMessage) []json.RawMessage {
+			if isListsBeh(raw) {
+				return []json.RawMessage{raw}
+			}
 			var beh behaviour
 			if err := json.Unmarshal(raw, &beh); err != nil {
 				panic(err)
@@ -1619,6 +1855,19 @@ func main() {
 				n, ms = 60, 1500
 			}
 			var out []json.RawMessage
+			nl := 8 // free-running clean-up / operators / observer on one IP manager (lists.go)
+			if env.Tier == "thorough" {
+				nl = 30
+			}
+			for i := 0; i < nl; i++ {
+				out = append(out, fw.MustJSON(listsBeh{L: &listsHdr{V: "free", Free: i + 1, Ms: 400}}))
+			}
+			if f := os.Getenv("C18_ONLY"); f != "" && !strings.Contains("free", f) {
+				if strings.Contains("clean", f) {
+					return out
+				}
+				return nil
+			}
 			for i := 0; i < n; i++ {
 				perm := 1000000
 				if i%4 == 3 {
@@ -1632,6 +1881,9 @@ func main() {
 			if env.Tier == "thorough" {
 				if strings.HasPrefix(src, "gen:seq") {
 					return 1500
+				}
+				if strings.HasPrefix(src, "gen:clean") || src == "legacy:clean-variants" {
+					return 400
 				}
 				return 800
 			}
@@ -1684,13 +1936,14 @@ func main() {
 			}
 			return n >= 2
 		},
-		Rule: "behaviours are printed by TLC from spec/BruteForce.tla: one per transition (state, step) of the sequential graphs, every placement of the asynchronous unban/un-blacklist and every step at which the as-is model records a deviation or violation in the graph of two racing handshakes, plus -simulate histories; each is replayed on the real objects behind the real HandleHandshake with a real clock; non-trivial = realised with at least two handshakes / asynchronous removals / blacklist orders",
+		Rule: "behaviours are printed by TLC from spec/BruteForce.tla: one per transition (state, step) of the sequential graphs, every placement of the asynchronous unban/un-blacklist and every step at which the as-is model records a deviation or violation in the graph of two racing handshakes, plus -simulate histories; each is replayed on the real objects behind the real HandleHandshake with a real clock. From spec/BruteForceLists.tla: every end of a clean-up pass of the IP manager and every return of an operator call during a pass, storage call by storage call (gate-controlled storage), under the clean-up as it stands and under its lock-shortening variants (every recorded deviation / violation), plus free-running clean-up / operators / observer. non-trivial = realised with at least two handshakes / asynchronous removals / blacklist orders",
 		Assumptions: []string{
 			fmt.Sprintf("one model tick = %v of real time; durations of n ticks are configured as (n-1/2) ticks; a behaviour whose steps left the first third of their tick is discarded as inconclusive", tickD),
 			"the judge evaluates every timed predicate on measured call brackets (monotonic clock, ms) with margins: its demands are sound whatever the load, the margins only bound what it can demand",
 			"the credential store and the connection object are doubles; SessionManager is real but only asked for its node id",
 			"lifetime failure count = as kept with the failure record (dropped on success and when a clean-up finds its window empty)",
+			"IP manager schedules: the storage double (the repository's memory storage behind gates) is the only seam; 'waits for the manager's lock' is read from the goroutine's wait reason; a blacklist order counts from the return of AddToBlacklist (nil), a withdrawal from the call of RemoveFromBlacklist, whitelisting from the call of AddToWhitelist to the return of RemoveFromWhitelist; a restart happens only when no call is in flight",
 		},
-		TrustedBase: []string{"TLC", "spec/BruteForceTrace.tla as the reading of C18", "harness/sched gate scheduler", "goroutine-creator routing of verifhook calls (runtime.Stack)", "monotonic clock of the Go runtime"},
+		TrustedBase: []string{"TLC", "spec/BruteForceTrace.tla as the reading of C18", "harness/sched gate scheduler", "goroutine-creator routing of verifhook calls (runtime.Stack)", "goroutine wait reasons (runtime.Stack) as evidence of a lock wait", "monotonic clock of the Go runtime"},
 	})
 }
